@@ -151,7 +151,7 @@ def main(argv):
     if limit:
         cfgs = cfgs[:limit]
     opts = dict(repo=repo, timeout_ms=int(os.environ.get('SX_TIMEOUT_MS', '60000')), max_paths=int(getattr(prop, 'MAX_PATHS', 20000)),
-                validate=True, cover=False, want_smt2=0, cfg_timeout=int(os.environ.get('SX_CFG_TIMEOUT', '600')))
+                validate=True, cover=False, want_smt2=0, cfg_timeout=int(os.environ.get('SX_CFG_TIMEOUT', '0') or 0) or int(getattr(prop, 'CFG_TIMEOUT', {}).get(tier, 600)))
     items = []
     # coverage and SMT-LIB2 export on a few configurations
     n_cross = 200 if tier == 'thorough' else 12
